@@ -30,6 +30,7 @@ import (
 	"github.com/lni/dragonboat/v4/internal/server"
 	"github.com/lni/dragonboat/v4/internal/settings"
 	"github.com/lni/dragonboat/v4/internal/transport"
+	"github.com/lni/dragonboat/v4/internal/verifhook"
 	"github.com/lni/dragonboat/v4/raftio"
 	pb "github.com/lni/dragonboat/v4/raftpb"
 	sm "github.com/lni/dragonboat/v4/statemachine"
@@ -1297,6 +1298,7 @@ func (n *node) handleReadIndex() (bool, error) {
 	if reqs := n.incomingReadIndexes.get(); len(reqs) > 0 {
 		n.qs.record(pb.ReadIndex)
 		ctx := n.pendingReadIndexes.nextCtx()
+		verifhook.Point(verifhook.ReadIndexWindow, n.shardID, n.replicaID)
 		n.pendingReadIndexes.add(ctx, reqs)
 		if err := n.p.ReadIndex(ctx); err != nil {
 			return false, err
